@@ -41,6 +41,13 @@ def run_variant(chk, tier, variant, own):
             events = kernels.execute_subprocess(cases, so, build.asan_runtime(), str(wd))
         finally:
             shutil.rmtree(wd, ignore_errors=True)
+    elif variant == "threads":
+        # operands long enough for two calls to overlap in time, from four threads
+        cases = [c for c in cases if c["kind"] == "kernel" and len(c["A"]) + len(c["B"]) >= 150]
+        cases = (cases * 3)[:6000]
+        build.load_catii("plain")
+        import catii.set_operations as mod
+        events = kernels.execute_threaded(cases, mod)
     else:
         build.load_catii(variant)
         import catii.set_operations as mod
@@ -87,6 +94,7 @@ def shape_class(c):
 
 def run(chk, tier):
     run_variant(chk, tier, "plain", OWN)
+    run_variant(chk, tier, "threads", OWN)       # the long operands again, from four threads at once
     chk.exhaustive = True
     chk.rule = ("all pairs of subsets of a 6 (quick) / 8 (thorough) point universe embedded in uint32 "
                 "{0,1,[2,7,]2^31-1,2^31,2^32-2,2^32-1} x 3 kernels; all None/empty/non-empty wrapper combinations over 4 "
@@ -97,7 +105,7 @@ def run(chk, tier):
 
 def replay(chk, path):
     r = json.load(open(path))["replay"]
-    build.load_catii(r.get("variant", "plain") if r.get("variant") != "asan" else "checked")
+    build.load_catii({"asan": "checked", "checked": "checked"}.get(r.get("variant"), "plain"))
     import catii.set_operations as mod
     cases = [r["case"]]
     events = kernels.execute(cases, mod)
